@@ -276,10 +276,12 @@ class FakeSnowflakeCursor:
             # the schema of the previous database is no longer the current schema
             self._conn.schema = None
             self._conn.schema_set = False
+            result_sql = SQL_SUCCESS
 
         if set_schema := transformed.args.get("set_schema"):
             self._conn.schema = set_schema
             self._conn.schema_set = True
+            result_sql = SQL_SUCCESS
 
         elif create_db_name := transformed.args.get("create_db_name"):
             # we created a new database, so create the info schema extensions
@@ -297,6 +299,10 @@ class FakeSnowflakeCursor:
         elif cmd == "DELETE":
             (affected_count,) = self._duck_conn.fetchall()[0]
             result_sql = SQL_DELETED_ROWS.substitute(count=affected_count)
+
+        elif cmd in ("TRANSACTION", "COMMIT", "ROLLBACK"):
+            # begin, commit and rollback
+            result_sql = result_sql or SQL_SUCCESS
 
         elif cmd in ("DESCRIBE TABLE", "DESCRIBE VIEW"):
             # DESCRIBE TABLE/VIEW has already been run above to detect and error if the table exists
